@@ -46,7 +46,7 @@ FLOORS = {"kept_object_asked_again": 5000, "kept_object_mask_must_change": 500, 
 SHARDS = {"quick": 16, "thorough": 64}
 CLASSES = ["auto", "auto_full", "explicit", "mixed", "tags", "reuse", "deep",
            "interleaved", "crossbranch", "fragment", "reuse_fixed",
-           "grow_fixed"]
+           "grow_fixed", "fixed_auto_many"]
 OWN_ATTRIBUTES = {"length", "fields", "field_values", "get_value", "get_mask",
                   "add_field", "keys"}   # attribute access finds these first
 KF_KEY = "assign-fields-first-fit-fragmentation"
@@ -223,6 +223,8 @@ def gen(cls, idx, rng, tier):
         return gen_reuse_fixed(rng)
     if cls == "grow_fixed":
         return gen_grow_fixed(rng)
+    if cls == "fixed_auto_many":
+        return gen_fixed_auto_many(rng)
     sh = Shadow(L)
     ops = []
     explicit_p = {"auto": 0, "auto_full": 0, "explicit": .7, "mixed": .3,
@@ -413,6 +415,72 @@ def gen_grow_fixed(rng):
         q = dict(bscope, a=v, g=big)
         q["p%d" % v] = 0
         ops.append(("query", q))
+    return dict(L=L, ops=ops)
+
+
+def gen_fixed_auto_many(rng):
+    """Three to seven fields of ONE scope with a fixed start and automatic
+    length, a few bits apart, defined in any order and all sized by the same
+    layout call from values that make some of them just reach, and some run
+    into, a neighbour - which need not be the field defined or sized just
+    before.  Fixed-size and floating fields in between.  Either the layout
+    is refused or nothing overlaps."""
+    L = rng.choice([16, 24, 32, 32, 64])
+    scope = {}
+    ops = []
+    if rng.random() < .4:
+        ops.append(("add", {}, "s", 1, L - 1, None))
+        scope = {"s": rng.randrange(2)}
+        L_room = L - 1
+    else:
+        L_room = L
+    n = rng.randint(3, 7)
+    starts = []
+    pos = rng.randint(0, 3)
+    for _ in range(n):
+        starts.append(pos)
+        pos += rng.randint(1, max(2, L_room // n))
+    starts = [st for st in starts if st < L_room]
+    order = list(range(len(starts)))
+    if rng.random() < .7:
+        rng.shuffle(order)
+    kinds = {}
+    for i in order:
+        nxt = starts[i + 1] if i + 1 < len(starts) else L_room
+        gap = nxt - starts[i]
+        c = rng.random()
+        if c < .15:
+            # a fully explicit field among them
+            kinds[i] = ("fixed", max(1, min(gap, rng.randint(1, 3))))
+            ops.append(("add", scope, "f%d" % i, kinds[i][1], starts[i],
+                        None))
+        else:
+            w = rng.choice([1, gap - 1, gap, gap, gap + 1, gap + 2,
+                            gap + rng.randint(1, 6)])
+            kinds[i] = ("auto", max(1, w))
+            ops.append(("add", scope, "f%d" % i, None, starts[i], None))
+    if rng.random() < .3:
+        ops.append(("add", scope, "fl", None, None, None))
+    vals = dict(scope)
+    for i in order:
+        k, w = kinds[i]
+        top = (1 << w) - 1
+        vals["f%d" % i] = rng.choice([top, top, max(1, top >> 1) + 1
+                                      if w > 1 else 1])
+    # one call giving every value, or one call per field in any order
+    if rng.random() < .5:
+        ops.append(("val", dict(vals)))
+    else:
+        names = [k for k in vals if k not in scope]
+        rng.shuffle(names)
+        for nm in names:
+            ops.append(("val", dict(scope, **{nm: vals[nm]})))
+    ops.append(("layout",))
+    small = dict(scope)
+    for i in order:
+        small["f%d" % i] = rng.randrange(2)
+    ops.append(("query", small))
+    ops.append(("query", dict(vals)))
     return dict(L=L, ops=ops)
 
 
